@@ -345,6 +345,9 @@ class Impl:
         if op == 'ravel':
             import ravel_impl
             return ravel_impl.run(s)
+        if op == 'aliashist':
+            import alias_impl
+            return [A(alias_impl.history(s))]
         if op == 'dcpart':
             import dc_impl
             return dc_impl.partition(s)[0]
